@@ -445,9 +445,9 @@ def make_cases(rng, tier, wd):
     progs = systematic()
     nsys = len(progs)
     if quick:
-        progs = progs[rng.randrange(4)::4]
+        progs = progs[rng.randrange(6)::6]
         nsys = len(progs)
-    n = 2500 if quick else 60000
+    n = 2000 if quick else 40000
     for k in range(n):
         g = Gen(rng, depth=3 if k % 3 else 2)
         progs.append(g.stylesheet())
@@ -526,8 +526,11 @@ def triage(res, events, rejects, cases, known):
 
 def run(res, tier, seed):
     rng = random.Random(seed)
+    from concurrent.futures import ThreadPoolExecutor
     wd = vlib.workdir("c14-%d" % os.getpid())
-    mc(res, tier, wd)
+    vlib.build_harness("c14")
+    pool = ThreadPoolExecutor(max_workers=1)
+    mcjob = pool.submit(mc, res, tier, wd)          # model checking runs beside the conformance pipeline
     cases, metas, nsys = make_cases(rng, tier, wd)
     events = run_cases(res, cases, metas, wd)
     res.cov["evaluations"] = len(events)
@@ -540,6 +543,8 @@ def run(res, tier, seed):
     # how faithful the transcription is: the recorded raw tree against NsFixupImpl's prediction on a sample of ALL cases
     sample = events[::(4 if tier == "quick" else 8)]
     mism, _ = vlib.tlc_validate_sharded(TRACE_IMPL, [dict(e, mode="conf") for e in sample], tag="c14conf", stateless=True, timeout=3000)
+    mcjob.result()
+    pool.shutdown()
     res.notes["impl_transcription_conformance"] = {"cases": len(sample), "raw_tree_differs_from_NsFixupImpl": len(mism),
                                                    "first": (mism[0]["msg"][:300] if mism else "")}
     kinds, nt, deep = set(), set(), 0
